@@ -37,9 +37,14 @@ class Z3Ctx:
     def expr(self, p):
         return poly_to_z3(self.alg, p, self.zv)
 
-    def base_constraints(self, extra_facts=()):
+    def base_constraints(self, extra_facts=(), without_inverses=False):
+        """without_inverses: drop the defining relations d*I = 1 of inverse generators (they presuppose
+        d != 0, which is exactly what a SAFE query must not assume)"""
         cs = []
+        inv_names = [n for n, (a, r) in self.alg.gen_atom.items() if a.kind == "inv"]
         for r in self.alg.relations:
+            if without_inverses and self.alg.uses_gens(r, inv_names):
+                continue
             cs.append(self.expr(r) == 0)
         for n in self.alg.nonneg:
             cs.append(self.zv(n) >= 0)
